@@ -13,6 +13,7 @@ mod codec;
 mod eqhash;
 mod replace;
 mod rope;
+mod views;
 mod rng;
 mod wildmap;
 
@@ -39,6 +40,8 @@ fn main() {
     "replay-wildmap" => wildmap::replay(&args[2]),
     "search-rope" => rope::search(&args[2..]),
     "replay-rope" => rope::replay(&args[2]),
+    "search-views" => views::search(&args[2..]),
+    "replay-views" => views::replay(&args[2]),
     "search-replace" => replace::search(&args[2..]),
     "replay-replace" => replace::replay(&args[2]),
     _ => { eprintln!("usage: twin search-enc|search-lines|search-dec|search-replace <seed> <budget> | replay-* <witness>"); 2 }
